@@ -24,6 +24,8 @@ const ZXSTZF_FSET: u32 = 4;
 #[cfg(all(feature = "sound", feature = "ay"))]
 const ZXSTAYF_128AY: u32 = 2;
 
+const ZXSTSPECREGS_BORDER_MASK: u8 = 0x07;
+
 const ZXSTKJT_KEMPSTON: u32 = 1;
 
 const ZXSTM_KEMPSTON: u32 = 2;
@@ -234,7 +236,8 @@ fn process_spcr_block<H: Host>(
     // chBorder
     // Setting the border after the value of port 0xfe above because that too
     // sets the border color.
-    emulator.controller.border_color = ZXColor::from_bits(block_data[0]);
+    // Only 3 bits of the color exist in the hardware
+    emulator.controller.border_color = ZXColor::from_bits(block_data[0] & ZXSTSPECREGS_BORDER_MASK);
 
     Ok(())
 }
